@@ -30,6 +30,9 @@ RULES = {
     "ls1": ("(('prim', 'l'), ('prim', '1'))", "V('falsy')", []),
     # fails at sibling keys of mixed types (str, int, None) at once
     "M_list": ("(('map', NULL),)", "V('is_instance', list)", []),
+    # rules that compare equal (Rule.__eq__: commuted operands) but are separate entries of the rule list
+    "ab_and": ("(('prim', 'a'), ('prim', 'b'))", "('and', V('greater_than', t1), V('is_instance', int))", [("t1", "int")]),
+    "ab_and_c": ("(('prim', 'a'), ('prim', 'b'))", "('and', V('is_instance', int), V('greater_than', t1))", [("t1", "int")]),
 }
 
 
@@ -101,6 +104,8 @@ QUICK = [
     ["acL_gt", "ab_str", "L_x"], ["M_truthy", "X_len"], ["M_dict", "ab_gt", "zz"], ["zz", "L_x"], ["aci", "acL_gt"],
     ["l1f", "l1i"], ["l1f", "l1ib", "zz"], ["l0f", "l0i", "l1i"],
     ["k1s", "k1i"], ["k1s", "zz", "k1i"], ["ls1", "l1i", "l1ib"], ["M_list"], ["M_list", "k1i"],
+    # the same definition listed more than once (separately built equal rules; commuted operands): every entry is applied and counted
+    ["ab_gt", "ab_gt"], ["M_list", "ab_gt", "M_list"], ["ab_and", "ab_and_c"], ["ab_and_c", "zz", "ab_and"], ["zz", "zz"],
 ]
 
 
@@ -144,6 +149,23 @@ def cases(ctx):
     out.append(reuse_case("removed_in_place", "{'a': u1, 'b': {'c': 0}, 'xs': [1, 'x']}", "d1", "del d1['b']['c']\nd1['xs'][0] = 1.5", L))
     for names in QUICK:
         out.append(schema_case(names, "dm", L))
+    # the very same Rule object listed twice (and once more through add_schema): two entries, two rule tests, failures counted twice
+    body = """
+r1 = Rule(('a', 'b'), Value.greater_than(t1))
+r2 = Rule((MapValue(),), Value.is_instance(dict))
+doc = {'a': {'b': u1, 'c': [u2, 0]}, 'l': [u1], 1: u2}
+TERMS = {id(r1): ((('prim', 'a'), ('prim', 'b')), V('greater_than', t1)), id(r2): ((('map', NULL),), V('is_instance', dict))}
+ok = True
+for rules in ([r1, r1], [r2, r1, r2], [r1, r2, r1, r1]):
+    sch = Schema(list(rules))
+    refs = [ref_rule(*TERMS[id(r)], doc) for r in rules]
+    v = sch.validate(doc)
+    ok = ok and note('every listed entry is a rule of the schema', len(sch.rules) == len(rules) and len(v.rule_tests) == len(rules))
+    ok = ok and same('aggregates', (v.is_valid, v.num_failures, v.num_rules_tested), (all(r[0] for r in refs), sum(len(r[2]) for r in refs), sum(1 for r in refs if r[1])))
+    ok = ok and isinstance(v.get_failures_string(), str)
+return ok
+"""
+    out.append(mk_case("c06.duplicates.same_object", [("t1", "int"), ("u1", U), ("u2", "int")], body, pre=[f"BU({L}, t1, u1, u2)"], stubs=["sym_repr"]))
     if not ctx.quick:
         for names in QUICK[1:]:
             out.append(schema_case(names, "dl", L))
